@@ -133,4 +133,70 @@ def execSnapshotCheck (s : St) : List Act → Option St
 
 end HandOver
 
+/-!
+### `runtime.Registry.Query`: one goroutine per value provider, a per-record filter, one result stream
+
+`Registry.Query` (runtime/registry.go) starts one goroutine per matching provider (`errgroup`). Each goroutine
+asks its provider for the records and then, record by record: locks the record, evaluates the filter
+(`MatchesKey`, `CheckValidity`, `CheckPermission(local, internal)`, `MatchesRecord`) into the variable `allowed`,
+unlocks the record, and *then* decides: `if !allowed { continue }`, else sends the record into `Next`.
+
+Between the evaluation and the decision other goroutines run. What the decision reads is therefore the question:
+a variable of its own (declared inside the record loop or anywhere inside the goroutine's function literal), or a
+variable declared in `Query` itself, which all goroutines share (`shared = true`). Where the source declares it is
+regenerated (`PB.Gen.DbReg`); the model takes it as the parameter `shared`.
+
+One action per atomic step: `eval g` = lock, evaluate, write `allowed`, unlock; `decide g` = read `allowed`, skip or
+send. A record is an id and the verdict of the filter on it (flags and query are constant during the query; the
+re-flagging race is `HandOver`'s subject).
+-/
+namespace RegQuery
+
+/-- One provider goroutine. -/
+structure G where
+  todo : List (Nat × Bool)            -- records still to look at: (id, filter verdict)
+  cur : Option (Nat × Bool) := none    -- evaluated, decision pending
+  allowed : Bool := false              -- the goroutine's own `allowed`
+  deriving Repr, DecidableEq
+
+structure St where
+  gs : List G
+  shared : Bool := false               -- the one `allowed` all goroutines write, if it is declared in `Query`
+  out : List (Nat × Bool) := []        -- what was sent into `Next`
+  deriving Repr, DecidableEq
+
+inductive Act where
+  | eval (g : Nat) | decide (g : Nat)
+  deriving Repr, DecidableEq
+
+def step (sharedVar : Bool) (s : St) : Act → Option St
+  | .eval i =>
+    match s.gs[i]? with
+    | some g =>
+      (match g.cur, g.todo with
+       | none, x :: rest =>
+         some { s with gs := s.gs.set i { g with todo := rest, cur := some x, allowed := x.2 },
+                       shared := if sharedVar then x.2 else s.shared }
+       | _, _ => none)
+    | none => none
+  | .decide i =>
+    match s.gs[i]? with
+    | some g =>
+      (match g.cur with
+       | some x =>
+         let a := if sharedVar then s.shared else g.allowed
+         some { s with gs := s.gs.set i { g with cur := none }, out := if a then s.out ++ [x] else s.out }
+       | none => none)
+    | none => none
+
+def init (providers : List (List (Nat × Bool))) : St := { gs := providers.map (fun l => { todo := l }) }
+
+def exec (sharedVar : Bool) (s : St) : List Act → Option St
+  | [] => some s
+  | a :: rest => match step sharedVar s a with
+    | some s' => exec sharedVar s' rest
+    | none => none
+
+end RegQuery
+
 end PB.Iter
